@@ -261,7 +261,7 @@ def evaluate(plan, o):
             break
     for c in o.conns:
         if c["at"] > cvt or (c["at"] == cvt and o.attempts[c["attempt"]]["ev"] < cev < _accept_trace_ev(o, c)):
-            if c["fault"] is not None and c["fault"][2] in ("reset", "write_fail") and c["fault"][1] <= c["at"] + 1.0:
+            if c["fault"] is not None and c["fault"][2] in ("reset", "write_fail") and c["fault"][1] <= c["at"] + 5.0:
                 continue          # the peer tore it down itself: nothing is left to shut
             if c["closed_at"] is None:
                 v.append(viol("C14.K2" + sfx, _accept_trace_ev(o, c), "connection %d was established at t=%.6f after close() "
